@@ -19,14 +19,14 @@ from vk.mon.c11 import Synth
 
 LEVEL = 'exploration'
 RULE = ('inputs: corpus and derivations in 5 layouts (multi-line tokens, CRLF, U+2028/9), parsed with and without '
-        'comment capture; printers: pretty, minify, minify+drop_semi, minify+obfuscate(+globals); multi-file: 2-4 '
+        'comment capture, every fourth also by Parser(yacc_tracking=False); printers: pretty, minify, minify+drop_semi, minify+obfuscate(+globals); multi-file: 2-4 '
         'programs with different source paths and leading padding printed separately, in sequence and as one combined '
         'tree; a case = (text or file set, printer, capture flag); non-trivial = at least 5 explicitly positioned '
         'fragments; distinct by that triple.')
 ASSUMPTIONS = ['the token at an offset of a source is taken from the refjs token/comment log of that source; a fragment '
                'without position (None or the implied 0:0) is legal and only counted']
 BUDGET_S = {'quick': 60, 'thorough': 700}
-REQUIRED_HITS = ['fragments_positioned', 'fragments_checked', 'renamed_checked', 'multi_source_checked', 'three_level_nesting']
+REQUIRED_HITS = ['fragments_positioned', 'fragments_checked', 'renamed_checked', 'multi_source_checked', 'three_level_nesting', 'parser_without_yacc_tracking']
 FLOOR = {'quick': 1500, 'thorough': 20000}
 
 
@@ -189,10 +189,21 @@ def _decode_names(c):
     return c
 
 
-def parse_source(ctx, synth, path, text, with_comments):
+def parse_source(ctx, synth, path, text, with_comments, variant=None):
     synth.pos = set()
     try:
-        tree, err = work.run_impl(text, with_comments)
+        if variant == 'no_yacc_tracking':
+            # a parser that does not ask ply for the positions of non-terminals: fewer fragments have a position, those
+            # that have one still have to be right
+            from calmjs.parse.parsers.es5 import Parser
+            from calmjs.parse.exceptions import ECMASyntaxError
+            try:
+                tree = Parser(yacc_tracking=False, with_comments=with_comments).parse(text)
+            except ECMASyntaxError:
+                tree = None
+            ctx.hit('parser_without_yacc_tracking')
+        else:
+            tree, err = work.run_impl(text, with_comments)
     except Exception:
         return None, None
     if tree is None:
@@ -213,11 +224,11 @@ def parse_source(ctx, synth, path, text, with_comments):
     return tree, src
 
 
-def check_single(ctx, synth, text, with_comments, origin):
+def check_single(ctx, synth, text, with_comments, origin, variant=None):
     res, rerr = work.run_ref(text)
     if work.uncertain(res, rerr) or work.skip_known(ctx, text, res):
         return
-    tree, src = parse_source(ctx, synth, 'src/one.js', text, with_comments)
+    tree, src = parse_source(ctx, synth, 'src/one.js', text, with_comments, variant)
     if tree is None or src is None or src.res is None:
         ctx.count('skipped:not_accepted_by_both')
         return
@@ -231,14 +242,16 @@ def check_single(ctx, synth, text, with_comments, origin):
             ctx.count('printer_raised:%s' % type(e).__name__)      # C01 / C02 report that; no fragments to judge
             continue
         viol = run_fragments(ctx, frags, {'src/one.js': src}, 'src/one.js',
-                             (text, pname, with_comments), origin, text)
+                             (text, pname, with_comments, variant), origin, text)
         seen = set()
         for mech, detail in viol:
             if mech in seen:
                 continue
             seen.add(mech)
-            ctx.violation(mech, {'text': text, 'printer': pname, 'with_comments': with_comments},
-                          '%s\nprinter %s, comment capture %s\ninput: %r' % (detail, pname, with_comments, text[:300]))
+            ctx.violation(mech + (':' + variant if variant else ''),
+                          {'text': text, 'printer': pname, 'with_comments': with_comments, 'variant': variant},
+                          '%s\nprinter %s, comment capture %s%s\ninput: %r' % (
+                              detail, pname, with_comments, ', parser variant ' + variant if variant else '', text[:300]))
         if viol:
             break
 
@@ -352,6 +365,8 @@ def run(ctx):
         recent = []
         for i, (text, meta) in enumerate(progs):
             check_single(ctx, synth, text, i % 3 == 1 or meta['layout'] == 'random_comments', meta['origin'])
+            if i % 4 == 2:
+                check_single(ctx, synth, text, i % 8 == 2, meta['origin'], variant='no_yacc_tracking')
             recent.append(text)
             if len(recent) >= 2 + (i % 3):
                 check_multi(ctx, synth, recent, 'multi')
@@ -369,7 +384,7 @@ def replay(ctx, witness):
         if 'texts' in witness:
             check_multi(ctx, synth, witness['texts'], 'replay')
         else:
-            check_single(ctx, synth, witness['text'], bool(witness.get('with_comments')), 'replay')
+            check_single(ctx, synth, witness['text'], bool(witness.get('with_comments')), 'replay', variant=witness.get('variant'))
     finally:
         synth.remove()
 
